@@ -116,6 +116,9 @@ class Model(Object):
                 x._model = self
         if not hasattr(self, "name"):
             self.name = None
+        # an unpickled solver does not carry all of its tolerances along
+        if getattr(self, "_tolerance", None) is not None and "_solver" in state:
+            self.tolerance = self._tolerance
 
     def __getstate__(self) -> Dict:
         """Get state for serialization.
@@ -486,6 +489,9 @@ class Model(Object):
             # Cplex has an issue with deep copies
         except Exception:  # pragma: no cover
             new._solver = copy(self.solver)  # pragma: no cover
+        # a copied solver does not carry all of its tolerances along
+        if new._tolerance is not None:
+            new.tolerance = new._tolerance
 
         return new
 
